@@ -128,6 +128,8 @@ type IA struct {
 	visits  map[*ssa.BasicBlock]int
 	Steps   int
 	widened map[*ssa.Phi]bool
+	reps    map[ssa.Value]ssa.Value // available-load representatives (LoadReps)
+	entry   istate
 	// Incomplete is set when the fixed point was not reached within the step budget:
 	// results must then be treated as undecided.
 	Incomplete bool
@@ -164,6 +166,31 @@ func isInteger(t types.Type) bool {
 	return ok && b.Info()&types.IsInteger != 0
 }
 
+// termOf of the analysis: loads of a local struct's field are named by their available-load
+// representative (see LoadReps), so a fact learned on one load holds for the re-load.
+func (ia *IA) termOf(v ssa.Value) term {
+	for i := 0; i < 8; i++ {
+		r, ok := ia.reps[v]
+		if !ok {
+			break
+		}
+		v = r
+	}
+	return termOf(v)
+}
+
+// widenedFrom strips integer conversions that cannot change the value (the source type's
+// range lies within the destination's).
+func widenedFrom(v ssa.Value) ssa.Value {
+	for {
+		c, ok := v.(*ssa.Convert)
+		if !ok || !isInteger(c.X.Type()) || !isInteger(c.Type()) || !typeRange(c.X.Type()).Within(typeRange(c.Type())) {
+			return v
+		}
+		v = c.X
+	}
+}
+
 func termOf(v ssa.Value) term {
 	if c, ok := v.(*ssa.Call); ok {
 		if b, ok := c.Call.Value.(*ssa.Builtin); ok && b.Name() == "len" && len(c.Call.Args) == 1 {
@@ -184,7 +211,7 @@ func (ia *IA) eval(v ssa.Value, s istate, depth int) Itv {
 		}
 		return typeRange(c.Type())
 	}
-	t := termOf(v)
+	t := ia.termOf(v)
 	tr := typeRange(v.Type())
 	if r, ok := s[t]; ok {
 		if lo, isLen := t.(lenOf); isLen && depth < 12 {
@@ -301,7 +328,19 @@ func (ia *IA) structural(v ssa.Value, s istate, depth int) Itv {
 		case token.ADD:
 			return clamp(Itv{satAdd(a.Lo, b.Lo), satAdd(a.Hi, b.Hi)})
 		case token.SUB:
-			return clamp(Itv{satAdd(a.Lo, satNeg(b.Hi)), satAdd(a.Hi, satNeg(b.Lo))})
+			r := Itv{satAdd(a.Lo, satNeg(b.Hi)), satAdd(a.Hi, satNeg(b.Lo))}
+			// x - x/c (c >= 1, x >= 0) is monotone in x: the one relational shape the
+			// non-relational domain would otherwise lose ("the rest after taking a share")
+			if q, ok := widenedFrom(x.Y).(*ssa.BinOp); ok && q.Op == token.QUO && a.Lo >= 0 {
+				if c, isC := ConstInt(q.Y); isC && c >= 1 && ia.termOf(widenedFrom(q.X)) == ia.termOf(widenedFrom(x.X)) {
+					hi := int64(pinf)
+					if a.Hi != pinf {
+						hi = a.Hi - a.Hi/c
+					}
+					r = r.meet(Itv{a.Lo - a.Lo/c, hi})
+				}
+			}
+			return clamp(r)
 		case token.MUL:
 			c := []int64{satMul(a.Lo, b.Lo), satMul(a.Lo, b.Hi), satMul(a.Hi, b.Lo), satMul(a.Hi, b.Hi)}
 			r := Itv{c[0], c[0]}
@@ -501,7 +540,7 @@ func (ia *IA) assign(s istate, v ssa.Value, r Itv, depth int) {
 	if _, isConst := v.(*ssa.Const); isConst || depth > 6 {
 		return
 	}
-	t := termOf(v)
+	t := ia.termOf(v)
 	if old, ok := s[t]; ok {
 		r = r.meet(old)
 	}
@@ -574,13 +613,21 @@ func sameState(a, b istate) bool {
 }
 
 // Intervals runs the analysis on fn.
-func Intervals(fn *ssa.Function) *IA {
-	ia := &IA{fn: fn, in: map[*ssa.BasicBlock]istate{}, edge: map[Edge]istate{}, visits: map[*ssa.BasicBlock]int{}, widened: map[*ssa.Phi]bool{}}
+func Intervals(fn *ssa.Function) *IA { return IntervalsSeeded(fn, nil) }
+
+// IntervalsSeeded runs the analysis with the given intervals assumed for parameters (or
+// free variables) at function entry — the caller is responsible for their soundness
+// (e.g. the join over every call site).
+func IntervalsSeeded(fn *ssa.Function, seeds map[ssa.Value]Itv) *IA {
+	ia := &IA{fn: fn, in: map[*ssa.BasicBlock]istate{}, edge: map[Edge]istate{}, visits: map[*ssa.BasicBlock]int{}, widened: map[*ssa.Phi]bool{}, reps: LoadReps(fn)}
 	if len(fn.Blocks) == 0 {
 		return ia
 	}
 	entry := fn.Blocks[0]
 	ia.in[entry] = istate{}
+	for v, r := range seeds {
+		ia.in[entry][ia.termOf(v)] = r
+	}
 	work := []*ssa.BasicBlock{entry}
 	inWork := map[*ssa.BasicBlock]bool{entry: true}
 	const widenAfter = 4
